@@ -631,6 +631,93 @@ R.contract(
     replayable=False,
 )
 
+
+# ------------------------------------------------------------------------------------------------- WSGITransport.send: the Werkzeug client is asked for the serialized case, with the case's cookies set for this call only
+def _wsgi_serialized(it, obj, a, k):
+    d = {"method": "POST", "path": Str.make(it, it.path.fresh("path")), "headers": {"X-A": "1"}, "query_string": None}
+    it.ghost["serialized"] = dict(d)
+    it.ghost["serialize_kwargs"] = dict(k)
+    return d
+
+
+def _client_methods():
+    def open_(it, obj, a, k):
+        it.ghost["log"] = it.ghost["log"] + [("open", dict(k), dict(obj.fields["cookies"]))]
+        crash = it.path.choose([(False, True), (True, True)], "app-raises")
+        if crash:
+            from pyvc.interp import PyExc
+
+            raise PyExc(it.make_exc(it.resolve_exc_class("RuntimeError", None), ()))
+        from pyvc.values import VObj
+
+        r = VObj(it.resolve_class("spec:WerkzeugResponse"), {"status_code": 200, "headers": VObj(it.resolve_class("spec:WzHeaders"), {}), "data": fresh_opaque(it, "BodyBytes")})
+        it.ghost["wz_response"] = r
+        return r
+
+    def set_cookie(it, obj, a, k):
+        obj.fields["cookies"] = {**obj.fields["cookies"], k["key"]: k["value"]}
+
+    def delete_cookie(it, obj, a, k):
+        obj.fields["cookies"] = {n: v for n, v in obj.fields["cookies"].items() if n != k["key"]}
+
+    return {"open": open_, "set_cookie": set_cookie, "delete_cookie": delete_cookie}
+
+
+R.nominal_methods["spec:WerkzeugClient"] = _client_methods()
+R.nominal_methods["spec:WzHeaders"] = {"keys": lambda it, obj, a, k: [], "getlist": lambda it, obj, a, k: []}
+R.nominal_methods["spec:WerkzeugResponse"] = {"get_data": lambda it, obj, a, k: obj.fields["data"]}
+R.nominal_methods["spec:WsgiSendingTransport"] = {"serialize_case": _wsgi_serialized}
+R.contract("schemathesis.python.wsgi:get_client", args={"app": Opq("Any")}, trusted=True,
+           returns=lambda it, env: it.ghost.__setitem__("own_client", __import__("pyvc.values", fromlist=["VObj"]).VObj(it.resolve_class("spec:WerkzeugClient"), {"cookies": {}, "app": env["app"]})) or it.ghost["own_client"],
+           note="werkzeug.Client(app)")
+R.extern["time.monotonic"] = lambda it, a, k: Real.make(it, it.path.fresh("now"))
+R.contract("schemathesis.transport.prepare:normalize_base_url", args={"base_url": Opq("Any")}, returns=Opt(Str), trusted=True, note="adds a scheme to a bare host")
+R.nominal_methods["spec:RequestsTransportObj"] = {"serialize_case": lambda it, obj, a, k: it.ghost.__setitem__("recorded_request_kwargs", dict(k)) or {"method": "POST", "url": "http://localhost/"}}
+R.module_values["schemathesis.transport.wsgi:REQUESTS_TRANSPORT"] = None
+
+
+def _wsgi_setup(it):
+    from pyvc.verify import locate
+    from pyvc.values import VObj
+
+    it.reg.module_values["schemathesis.transport.wsgi:REQUESTS_TRANSPORT"] = VObj(it.resolve_class("spec:RequestsTransportObj"), {})
+    _, _, fn = locate(it, WS + "WSGITransport.send")
+    return fn, {}
+
+
+R.extern["requests.Request"] = lambda it, a, k: __import__("pyvc.values", fromlist=["VObj"]).VObj(it.resolve_class("spec:RequestsRequest"), {"kwargs": dict(k)})
+R.nominal_methods["spec:RequestsRequest"] = {"prepare": lambda it, obj, a, k: ("prepared", obj)}
+R.contract("schemathesis.core.transport:Response", abstract_only=True, args={}, returns=lambda it, env: __import__("pyvc.values", fromlist=["VObj"]).VObj(it.resolve_class("spec:UnifiedResponse"), {k: env.get(k) for k in ("status_code", "headers", "content", "request", "elapsed", "verify")}),
+           note="constructor (Response.from_requests: C16 contract)")
+R.contract(
+    WS + "WSGITransport.send",
+    prop="C06",
+    setup=_wsgi_setup,
+    args={"self": Obj("spec:WsgiSendingTransport"), "case": Obj("spec:WsgiSentCase", cookies=OneOf(NoneT, DictOf(optional={"sid": Str, "theme": Str})),
+                                                              operation=Obj("spec:WsgiSentOp", base_url=Opt(Str), schema=Obj("spec:SentSchema", rate_limiter=NoneT, base_url=Str))),
+          "session": OneOf(NoneT, Obj("spec:WerkzeugClient", cookies=Const({}), app=Opq("App"))),
+          "kwargs": DictOf(required={"app": Opq("App")}, optional={"headers": Opq("ExtraHeaders"), "params": Opq("ExtraParams"), "cookies": DictOf(optional={"sid": Str})})},
+    ghost={"serialized": None, "serialize_kwargs": None, "log": [], "own_client": None, "wz_response": None, "recorded_request_kwargs": None},
+    raises=["RuntimeError"],
+    ensures={
+        "every_serialized_part_is_sent_unchanged": "length(ghost('log')) == 1 and all(k in ghost('log')[0][1] and same(ghost('log')[0][1][k], ghost('serialized')[k]) for k in ghost('serialized'))",
+        "extra_headers_and_query_parameters_go_through_serialize_case": "same(ghost('serialize_kwargs')['headers'], kwargs_headers(old(dict(kwargs)))) and same(ghost('serialize_kwargs')['params'], kwargs_params(old(dict(kwargs))))",
+        # cookies: the case's own ones plus the caller's (the caller's win) are on the client DURING the call ...
+        "the_cases_and_the_callers_cookies_are_sent": "ghost('log')[0][2] == merged_cookies(case.cookies, old(dict(kwargs)))",
+        # ... and the request recorded for the reports is built from the same case, headers, parameters and cookies (C16)
+        "the_recorded_request_is_the_one_that_was_sent": "same(ghost('recorded_request_kwargs')['headers'], kwargs_headers(old(dict(kwargs)))) and same(ghost('recorded_request_kwargs')['params'], kwargs_params(old(dict(kwargs)))) and "
+                                                         "ghost('recorded_request_kwargs')['cookies'] == merged_cookies(case.cookies, old(dict(kwargs)))",
+        "the_apps_response_is_returned": "result.status_code == 200 and result.content is ghost('wz_response').data",
+    },
+    raises_ensures={"only_the_applications_own_exception_escapes": "raised == 'RuntimeError' and length(ghost('log')) == 1"},
+    bounded_note="two case cookies, one extra cookie",
+    replayable=False,
+)
+R.spec_funcs.update({
+    "kwargs_headers": lambda it, kw: kw.get("headers"), "kwargs_params": lambda it, kw: kw.get("params"),
+    "merged_cookies": lambda it, case_cookies, kw: {**(case_cookies or {}), **(kw.get("cookies") or {})},
+})
+
 LEVEL_TEXT = ("Deductive: each style encoder against the wire form of the OpenAPI serialization table, serialize_case's query/cookie/method/url pass-through; "
               "arrays/objects explored up to a small size (labelled bounded). URL composition and the requests library are trusted. Level other.")
 LEVEL_NOTE = "Trusted: requests (E4), str.join/split inversion and urllib (E5), pyvc semantics (E9)."
